@@ -1,7 +1,9 @@
 (** C16 — deleting one file never breaks another; no unpinned orphan remains.
     Property theorems only.  The model is [Aurora.C12.Model]: [api_delete]
     (the closure of auroraDeleteHandler inside chunkinfo.DelFile), [gc_end_ci]
-    (cache eviction), the pyramid reference counts of chunkinfo.
+    (cache eviction), the pyramid reference counts of chunkinfo — of the code
+    with proposed/C16/fix-delfile-unregistered-root.patch and
+    proposed/C16/fix-delete-shared-root.patch.
 
     "Another locally known file" is read as: another file registered with
     chunkinfo (its root is in the pyramid table: that is what the node knows).
@@ -14,64 +16,60 @@ Require Import Aurora.C11.Model Aurora.C12.Model Aurora.C12.ProofsCi Aurora.C12.
         Aurora.C12.ProofsHist Aurora.C12.ProofsOrphan Aurora.C12.Witness.
 Local Open Scope N_scope.
 
-(** "every other stored file stays fully readable" — FALSE in three ways:
-    (1) DELETE of a reference chunkinfo never registered (the bare POST /bytes reference of the
-        content a registered manifest points to): the counts of the registered file's chunks are
-        1, so the closure removes them;
-    (2) the deleted file IS registered, but its root chunk is an inner chunk of another
-        registered file: the closure removes the root unconditionally;
-    (3) the same through eviction: the run deletes the root of every recycled file unconditionally. *)
-Theorem C16_others_readable_refuted :
-  (exists cat po cap h root order rb,
-     let x := gexec cat po cap sys_init h in
-     registered (ci x) rb = true /\ registered (ci x) root = false /\ rb <> root /\
-     readable cat (ls x) rb = true /\
-     snd (gstep cat po cap x (GDelete root order)) = GDel true /\
-     readable cat (ls (delete_run cat po cap root order x)) rb = false) /\
-  (exists cat po cap h root order rb,
-     let x := gexec cat po cap sys_init h in
-     guarded cat po cap sys_init (h ++ [GDelete root order]) /\
-     registered (ci x) rb = true /\ registered (ci x) root = true /\ rb <> root /\
-     readable cat (ls x) rb = true /\
-     snd (gstep cat po cap x (GDelete root order)) = GDel true /\
-     readable cat (ls (delete_run cat po cap root order x)) rb = false) /\
-  (exists cat po cap h rb ctx,
-     let x := gexec cat po cap sys_init h in
-     guarded cat po cap sys_init (h ++ [GGcEnd]) /\
-     s_gcrun (ls x) = Some ctx /\ ~ In rb (cand_roots (g_cands ctx)) /\
-     registered (ci x) rb = true /\ readable cat (ls x) rb = true /\
-     readable cat (ls (gc_run cat po cap x)) rb = false).
-Proof. exact others_readable_refuted. Qed.
-Print Assumptions C16_others_readable_refuted.
-
-(** What holds for DELETE.  After every guarded history (reference counts exact), when the
-    deleted reference is registered (or cannot be traversed: then the handler does nothing):
-    every OTHER registered file keeps the stored bytes and the pin count of every one of its
-    chunks, is exactly as readable as before and stays registered — unless the deleted root
-    address is itself one of its chunks (witness 2 above). For every order in which Go ranges
-    over the pyramid maps. *)
-Theorem C16_delete_keeps_others_partial :
+(** DELETE.  After EVERY history (any interleaving of localstore calls, registrations,
+    deletes and collection phases from the empty node), for EVERY reference handed to the delete
+    handler and every order in which Go ranges over the pyramid maps: every OTHER registered
+    file keeps the stored bytes and the pin count of every one of its chunks, is exactly as
+    readable as before and stays registered.  (Code with the two C16 repairs; the witnesses of
+    the unrepaired code are corpus cases of the harness.) *)
+Theorem C16_delete_keeps_others :
   forall cat po cap (h : list gop) root order rb shb,
-    guarded cat po cap sys_init h ->
     let x := gexec cat po cap sys_init h in
-    (forall sh, trav cat (ls x) root = Some sh -> registered (ci x) root = true) ->
-    registered (ci x) rb = true -> cat_get cat rb = Some shb -> rb <> root -> ~ In root (cidset shb) ->
+    registered (ci x) rb = true -> cat_get cat rb = Some shb -> rb <> root ->
     (forall a, In a (cidset shb) ->
        data_get (ls (delete_run cat po cap root order x)) a = data_get (ls x) a /\
        pin_get (ls (delete_run cat po cap root order x)) a = pin_get (ls x) a) /\
     readable cat (ls (delete_run cat po cap root order x)) rb = readable cat (ls x) rb /\
     registered (ci (delete_run cat po cap root order x)) rb = true.
 Proof. exact delete_others_thm. Qed.
-Print Assumptions C16_delete_keeps_others_partial.
+Print Assumptions C16_delete_keeps_others.
 
-(** What holds for eviction: the same for a collection run whose candidates are registered
-    when their turn comes ([gc_guard]), for every registered file that is not a candidate and
-    none of whose chunks is a candidate's root address (witness 3). *)
+(** "Afterwards, no unpinned chunk used only by the deleted file remains stored."  After every
+    history, for a DELETE answered 200 and every order: every chunk of the deleted file that no
+    OTHER registered file contains is, afterwards, either not stored or still pinned (its pin
+    count exceeded the number of times the file uses it). *)
+Theorem C16_delete_leaves_no_orphan :
+  forall cat po cap (h : list gop) root order sh a,
+    let x := gexec cat po cap sys_init h in
+    trav cat (ls x) root = Some sh ->
+    snd (gstep cat po cap x (GDelete root order)) = GDel true ->
+    In a (cidset sh) ->
+    (forall r, registered (ci x) r = true -> r <> root -> in_fileb cat r a = false) ->
+    data_get (ls (delete_run cat po cap root order x)) a = None \/
+    pin_get (ls (delete_run cat po cap root order x)) a <> None.
+Proof. exact delete_no_orphan_thm. Qed.
+Print Assumptions C16_delete_leaves_no_orphan.
+
+(** EVICTION.  "every other stored file stays fully readable" is FALSE for cache eviction:
+    the run deletes the root chunk of every recycled file without consulting the reference
+    counts; a registered manifest over a cached one-chunk file loses that chunk (the same
+    statement in collectGarbage; not repaired: known finding). *)
+Theorem C16_eviction_keeps_others_refuted :
+  exists cat po cap h rb ctx,
+     let x := gexec cat po cap sys_init h in
+     s_gcrun (ls x) = Some ctx /\ ~ In rb (cand_roots (g_cands ctx)) /\
+     registered (ci x) rb = true /\ readable cat (ls x) rb = true /\
+     readable cat (ls (gc_run cat po cap x)) rb = false.
+Proof. exact others_readable_refuted. Qed.
+Print Assumptions C16_eviction_keeps_others_refuted.
+
+(** What holds for eviction: after every history, a run leaves every registered file that is
+    not a candidate as it was (bytes, pins, readability, registration), provided none of its
+    chunks is a candidate's root address. *)
 Theorem C16_eviction_keeps_others_partial :
   forall cat po cap (h : list gop) ctx rb shb,
-    guarded cat po cap sys_init h ->
     let x := gexec cat po cap sys_init h in
-    s_gcrun (ls x) = Some ctx -> gc_guard cat (ls x) (ci x) (g_cands ctx) ->
+    s_gcrun (ls x) = Some ctx ->
     registered (ci x) rb = true -> cat_get cat rb = Some shb -> ~ In rb (cand_roots (g_cands ctx)) ->
     (forall r, In r (cand_roots (g_cands ctx)) -> ~ In r (cidset shb)) ->
     (forall a, In a (cidset shb) ->
@@ -82,34 +80,28 @@ Theorem C16_eviction_keeps_others_partial :
 Proof. exact gc_others_thm. Qed.
 Print Assumptions C16_eviction_keeps_others_partial.
 
-(** "Afterwards, no unpinned chunk used only by the deleted file remains stored."  For a
-    DELETE answered 200 of a registered file, after every guarded history: every chunk of the
-    file that no other registered file contains is, afterwards, either not stored or still
-    pinned (its pin count exceeded the number of times the file uses it).  For every order. *)
-Theorem C16_delete_leaves_no_orphan_partial :
-  forall cat po cap (h : list gop) root order sh a,
-    guarded cat po cap sys_init h ->
-    let x := gexec cat po cap sys_init h in
-    registered (ci x) root = true -> trav cat (ls x) root = Some sh ->
-    snd (gstep cat po cap x (GDelete root order)) = GDel true ->
-    In a (cidset sh) -> refs cat (ci x) a = 1 ->
-    data_get (ls (delete_run cat po cap root order x)) a = None \/
-    pin_get (ls (delete_run cat po cap root order x)) a <> None.
-Proof. exact delete_no_orphan_thm. Qed.
-Print Assumptions C16_delete_leaves_no_orphan_partial.
-
 (** non-vacuity: two registered uploaded files sharing a chunk (one uses it twice, pinned);
-    deleting the first leaves the second readable, removes the exclusive chunks *)
+    deleting the first leaves the second readable and removes the exclusive chunks; and the
+    two witnesses of the unrepaired delete path: the manifest stays readable *)
 Example C16_example :
-  let cat := [ (rA, {| f_leaves := [x1; x1; x2]; f_edges := [rA] |});
-               (rB, {| f_leaves := [x1; x3]; f_edges := [rB] |}) ] in
+  let cat := [ (rA, {| f_leaves := [x1; x1; x2]; f_edges := [rA]; f_probe := [] |});
+               (rB, {| f_leaves := [x1; x3]; f_edges := [rB]; f_probe := [] |}) ] in
   let h := [uppin 1 x1; uppin 2 x1; uppin 3 x2; uppin 4 rA; GReg rA; up 5 x1; up 6 x3; up 7 rB; GReg rB] in
   let x := gexec cat po0 100 sys_init h in
-  guarded cat po0 100 sys_init (h ++ [GDelete rA [x2]]) /\
   registered (ci x) rA = true /\ registered (ci x) rB = true /\ readable cat (ls x) rB = true /\
   snd (gstep cat po0 100 x (GDelete rA [x2])) = GDel true /\
   readable cat (ls (delete_run cat po0 100 rA [x2] x)) rB = true /\
   data_has (ls (delete_run cat po0 100 rA [x2] x)) x2 = false /\
   data_has (ls (delete_run cat po0 100 rA [x2] x)) rA = false /\
   pin_get (ls (delete_run cat po0 100 rA [x2] x)) x1 = Some 2.
-Proof. vm_compute. repeat split; try reflexivity; try discriminate. Qed.
+Proof. vm_compute. repeat split; reflexivity. Qed.
+Example C16_repaired_witnesses :
+  (let x := gexec cat0 po0 100 sys_init w_del_unreg in
+   snd (gstep cat0 po0 100 x (GDelete rB [])) = GDel true /\
+   readable cat0 (ls (delete_run cat0 po0 100 rB [] x)) rM = true /\
+   ci (delete_run cat0 po0 100 rB [] x) = ci x) /\
+  (let x := gexec cat0 po0 100 sys_init w_del_root in
+   snd (gstep cat0 po0 100 x (GDelete rB [])) = GDel true /\
+   readable cat0 (ls (delete_run cat0 po0 100 rB [] x)) rM = true /\
+   registered (ci (delete_run cat0 po0 100 rB [] x)) rB = false).
+Proof. exact delete_witnesses_repaired. Qed.
